@@ -57,6 +57,7 @@ class Executor:
         self.pc = TRUE                    # path condition of the *caller* context
         self.steps = 0
         self.sqrt_memo = []               # [(num, den, r)]
+        self.valid_cache = {}
         self.closure_index = {}
         self.roots = []                   # extra world roots (values held by native drivers)
         self.trace_calls = set()
@@ -73,7 +74,18 @@ class Executor:
         if cond.is_const:
             return cond.val
         q = list(self.assumptions) + [self.pc if pc is None else pc, smt.not_(cond)]
+        norm = getattr(self, "normalizer", None)
+        if norm is not None:
+            q = [norm(t) for t in q]
+        conj = smt.and_(*q)
+        if conj.is_const:
+            return not conj.val
+        key = conj
+        hit = self.valid_cache.get(key)
+        if hit is not None:
+            return hit
         r, _ = self.solver.check(q)
+        self.valid_cache[key] = (r == "unsat")
         return r == "unsat"
 
     def oblige(self, bad, msg, where):
@@ -376,6 +388,8 @@ class Executor:
         """Run one invocation; explore all paths; merge outcomes; returns the (merged) return value."""
         if depth > 40:
             raise ExecError("call depth")
+        if fn.error:
+            raise ExecError(f"{fn.name} uses a construct outside the encodable vocabulary: {fn.error}")
         frame = Frame(fn)
         if len(args) != len(fn.args):
             raise ExecError(f"arity mismatch calling {fn.name}: {len(args)} vs {len(fn.args)}")
@@ -395,7 +409,7 @@ class Executor:
                 outcomes.append((p.cond, res, p.cmap))
         self.pc = entry_pc
         if not outcomes:
-            raise ExecError(f"no path of {fn.name} returns")
+            return _DIVERGE
         if len(outcomes) == 1 and outcomes[0][2] is not None and all(outcomes[0][2][k] is ident[k] for k in ident):
             return outcomes[0][1]
         return self._merge_outcomes(outcomes, ident)
